@@ -14,7 +14,7 @@
 (* all.  Every run modelled here is timed.)  Time: ticks 0..T+1.           *)
 (***************************************************************************)
 EXTENDS Integers, Sequences, FiniteSets, TLC
-CONSTANTS Procs, Behaviour,   \* Behaviour \in [Procs -> {"finish", "frame", "req", "hang"}]
+CONSTANTS Procs, Behaviour,   \* Behaviour \in [Procs -> {"finish", "frame", "req", "hang", "early", "never"}]
           Init0,              \* Init0 \in [Procs -> Nat] ticks of initialisation
           ReqAt,              \* ReqAt \in [Procs -> Nat] tick of the request / frame after release
           T, Cap, FirstWins
@@ -28,9 +28,14 @@ Send(st) ==       \* shut_down_with_status
   ELSE /\ requested' = TRUE
        /\ IF Len(chan) < Cap THEN chan' = Append(chan, st) /\ UNCHANGED lost
           ELSE chan' = Append(Tail(chan), st) /\ lost' = lost + 1        \* the receiver lags: the oldest value is dropped
-Arrive(p) == /\ pc[p] = "init" /\ now >= Init0[p] /\ returned = <<>>
+\* Behaviour "early": the protocol asks for a shutdown during its initialisation, before it waits at the barrier;
+\* "never": its initialisation never finishes (the barrier is never released, the run still ends as requested / in time)
+Arrive(p) == /\ pc[p] = "init" /\ now >= Init0[p] /\ returned = <<>> /\ Behaviour[p] # "never"
              /\ pc' = [pc EXCEPT ![p] = "arrived"]
-             /\ UNCHANGED <<now, chan, requested, frames, returned, lost, reqlog>>
+             /\ IF Behaviour[p] = "early"
+                THEN Send(p) /\ reqlog' = Append(reqlog, <<p, now>>)
+                ELSE UNCHANGED <<chan, lost, requested, reqlog>>
+             /\ UNCHANGED <<now, frames, returned>>
 Release(p) == /\ pc[p] = "arrived" /\ AllArrived /\ returned = <<>>
               /\ pc' = [pc EXCEPT ![p] = "released"]
               /\ UNCHANGED <<now, chan, requested, frames, returned, lost, reqlog>>
